@@ -252,7 +252,7 @@ def _sweep(args):
 
 def run(ctx, res):
     rng = random.Random(ctx['seed'] * 1000003 + 12)
-    N = tier_scale(ctx['tier'], 160, 3000) * (3 if ctx['deepen'] else 1)
+    N = tier_scale(ctx['tier'], 400, 5000) * (3 if ctx['deepen'] else 1)
     jobs = [(rng.randrange(1 << 30), rng.randint(4, 12)) for _ in range(N)]
     for f in ctx['known']:
         if f['id'] == 'F5' and f['status'] == 'open':
